@@ -11,6 +11,7 @@ namespace sn = tlx::sort_networks;
 
 using Seq = std::vector<std::pair<int, int>>;
 struct Elem { int key; int id; };
+VF_DECOY_ORDER(Elem, key)
 struct ElemLess { bool operator()(const Elem& a, const Elem& b) const { return a.key < b.key; } };
 
 // recording compare-exchange: logs positions, then does what the library's default functor does
